@@ -10,5 +10,5 @@ for id in $IDS; do
   rc=$(echo "$out" | grep -o "^exit=[0-9]*" | tail -1)
   nv=$(echo "$out" | grep -c "^VIOLATION property=$prop")
   first=$(echo "$out" | grep -A1 "^VIOLATION property=$prop" | sed -n 2p | cut -c1-160)
-  echo "$id vs $prop: $rc violations=$nv wall=$(( $(date +%s) - t0 ))s tree=$(git -C /repo rev-parse --short HEAD) verif=$(git -C /verif rev-parse --short HEAD) :: $first" >> seeded/results.txt
+  echo "$id vs $prop: $rc violations=$nv wall=$(( $(date +%s) - t0 ))s seed=${VERIF_SEED:-1} tree=$(git -C /repo rev-parse --short HEAD) verif=$(git -C /verif rev-parse --short HEAD) :: $first" >> seeded/results.txt
 done
